@@ -84,7 +84,9 @@ func runReceive(p *Prog, version, max *int64) ([]recvPath, int) {
 	}
 	s.Model = func(sm *Sim, st *State, call ssa.CallInstruction, callee *ssa.Function) []*State {
 		if callee != nil && callee.Name() == "send" && recvNamed(callee) == cl && len(call.Common().Args) == 3 {
-			st.aux["sent"] = st.aux["sent"] + strings.Join(sentMessageTypes(call.Common().Args[2]), "|") + ","
+			if strings.Count(st.aux["sent"], ",") < 3 { // saturate: a send inside a loop must not make the state space unbounded
+				st.aux["sent"] = st.aux["sent"] + strings.Join(sentMessageTypes(call.Common().Args[2]), "|") + ","
+			}
 		}
 		return nil
 	}
